@@ -11,14 +11,61 @@ def gen_opts(rng):
     return o
 
 
+def _evo_worker(args):
+    """a server restarted under an edited datamodel (types dropped, among them a child and its
+    parent together; type names whose alphabetical order differs from the declaration order):
+    every prefix of the bus, the removals of the dropped types included, must stay closed"""
+    import os
+    import traceback
+    case, wd = args
+    try:
+        import evocase
+        srvprops._init_worker()
+        res = evocase.run_case(case, wd)
+        return [v for v in evocase.analyse(case, res) if v[0] == "stream-prefix-not-closed"], None
+    except Exception:
+        return None, traceback.format_exc()
+
+
 def run(ctx):
+    import os
+    import random
+    from concurrent.futures import ProcessPoolExecutor
+    import common
+    import evocase
     n = ctx.n(400, 12000)
     opts = dict(OPTS)
     opts["shape_fn"] = True
-    return srvprops.generic_server_run(
+    out = srvprops.generic_server_run(
         ctx, n, opts, "c03_case",
         what="a prefix of the observed stream has a child without its parent")
+    # schema changes: types leaving the datamodel are withdrawn children first
+    rng = random.Random(ctx.seed + 3)
+    cases = []
+    while len(cases) < ctx.n(60, 1200):
+        c = evocase.gen_case(rng, {})
+        if any(e[0] == "remove_type" for e in c["edits"]):
+            cases.append(c)
+    with ProcessPoolExecutor(max_workers=14) as ex:
+        res = list(ex.map(_evo_worker, [(c, os.path.join(ctx.work, f"evo{i}")) for i, c in enumerate(cases)], chunksize=2))
+    errs = [(i, e) for i, (v, e) in enumerate(res) if e]
+    if errs:
+        raise RuntimeError(f"evolution driver error on case {errs[0][0]}:\n{errs[0][1]}")
+    for i, (viol, _) in enumerate(res):
+        if viol:
+            out["violations"].append({"sig": None, "replay_kind": "evolution_case", "case": common.enc(cases[i]),
+                                      "what": f"server restarted under an edited datamodel (edits {cases[i]['edits']}): {viol[0][1]}"})
+    out["evaluations"] += len(cases)
+    out.setdefault("coverage_extra", {})["datamodel_edits_with_dropped_types"] = len(cases)
+    out["coverage_extra"]["chains_dropped_together"] = sum(1 for c in cases if sum(1 for e in c["edits"] if e[0] == "remove_type") > 1)
+    return out
 
 
 def replay(obj):
+    if obj.get("replay_kind") == "evolution_case":
+        import common
+        case = common.dec(obj["case"])
+        viol, e = _evo_worker((case, common.workdir("replay") + "/evo"))
+        print(e or f"replay: {viol}")
+        return 1 if viol else 0
     return srvprops.replay_server_case(obj, "c03_case")
